@@ -130,7 +130,8 @@ MonFile(specsq, refs, bare, parses) ==
          => Report("C05", s1.path)
   /\ \A s \in specs : ~s.legal => Report("C05", s.name)
   \* C06: nothing imports the local package; a dot import is only referenced bare
-  /\ \A s \in specs : (cf.local # "" /\ s.path = cf.local) => Report("C06", s.path)
+  \* (an anonymous import of the own path that the user asked for with Anon is the user's import, not one produced by a reference)
+  /\ \A s \in specs : (cf.local # "" /\ s.path = cf.local /\ ~(s.name = "_" /\ s.path \in anons)) => Report("C06", s.path)
   /\ \A s \in specs : (s.name = "." /\ s.path \in used) => Report("C06", s.path)
   \* C19
   /\ \A s \in specs : (s.path = "C" /\ s.name # "") => Report("C19", s.name)
